@@ -293,7 +293,7 @@ def _sample(case):
 
 SUBS = [
     Sub('navigation', oracle, _classify, strategy=lambda tier: _cases(),
-        budget={'quick': 100, 'thorough': 800}, sample=_sample,
+        budget={'quick': 100, 'thorough': 2000}, sample=_sample,
         fingerprint=lambda c: fingerprint([c['universe'], c['selection']]),
         require_tags=('id-in-several-selected-lexicons', 'extension-sense-on-base-entry',
                       'ili-shared', 'mode:default', 'mode:several')),
